@@ -18,7 +18,24 @@ extern "C"
         sim::Sched &S = sim::Sched::get();
         if (!S.in_run()) return __real_pthread_mutex_lock(m);
         if (sim::RunCtx *c = sim::cur_ctx()) c->count("probe.mutex_lock");
-        S.mutex_lock(m);
+        // pthread_mutex_lock is declared nothrow: a detected deadlock is recorded and reported through the return value
+        // (std::mutex::lock then throws std::system_error, which unwinds the library normally); the run is classified
+        // as a stall by the runner
+        try
+        {
+            S.mutex_lock(m);
+        }
+        catch (const sim::Stall &e)
+        {
+            sim::pending_stall() = e.msg;
+            return 35; /* EDEADLK */
+        }
+        catch (...)
+        {
+            // e.g. the run is being aborted because another fiber failed: hand the original failure to the runner
+            sim::pending_error() = std::current_exception();
+            return 35;
+        }
         return 0;
     }
     int __wrap_pthread_mutex_unlock(pthread_mutex_t *m)
